@@ -273,6 +273,12 @@ pub fn plan(prop: &str, tier: Tier) -> Plan {
             if prop == "C11" && th {
                 s.push(scen("B22/P1/F1/R4", Cfg::new(0, 2, ("0.25", "0.25"), "R4"), menu_p1(2, 2), vec![]));
             }
+            if th {
+                // three orders on one side (one owner holding two of them)
+                let slim = |m: Menu| Menu { prices: vec!["2", "3"], sizes: vec![2], match_sizes: vec![1, 2], reject_sizes: vec![], ..m };
+                s.push(scen("B31/P1/F1/R0", Cfg::new(0, 2, ("0.25", "0.25"), "R0"), slim(menu_p1(3, 1)), vec![]));
+                s.push(scen("B13/P1/F1/R0", Cfg::new(0, 2, ("0.25", "0.25"), "R0"), slim(menu_p1(1, 3)), vec![]));
+            }
             Plan { scenarios: s, hooks: vec![] }
         }
         "C04" => Plan { scenarios: ledger_scenarios(tier, &|c, m| probes::reversals(c, m)), hooks: vec![] },
